@@ -68,6 +68,7 @@ def expression_shapes(tier: str, seed: int) -> list:
 	builtins = []
 	for o1, o2 in itertools.product(ARITH[:3] + CMP[:3], repeat=2):
 		builtins += [('builtin', f'abs(a {o1} b) {o2} d'), ('builtin', f'min(a, b) {o1} max(b {o2 if o2 in ARITH else "+"} d, a)'), ('builtin', f'int(c) {o1} int(a {o2} b)'), ('builtin', f'bool(a {o1} b) {o2} c')]
+	builtins += [('unary-bool', e) for e in ['-c', '~c', '+c', '-c + a', 'a - -c', '~c & a', '-(a < b)', '~(a < b) + d', '(-c) * 2']]
 	builtins += [('boolop-value', e) for e in ['a or b', 'a and b', '(a or b) + d', 'a or b or d', '(a and b) or d', 'c or a', '(a < b) or d', 'a - (b or 1)', 'abs(a or b)']]
 	builtins += [('builtin', e) for e in ['(a < b) is True', '(a < b) is not c', 'c is False or a == b', 'not (c is True)', 'int(a < b) + int(b < d) * 2', 'abs(-a) - abs(a)', 'min(a, max(b, d))', 'bool(a) and bool(b)', 'int(not c)']]
 	out += builtins
@@ -115,6 +116,8 @@ STATEMENT_TEMPLATES = [
 	'def {n}({h}) -> int:\n\tx = 0\n\tif c:\n\t\tx = a {0} b\n\telse:\n\t\tx = d\n\tif a {1} b:\n\t\tx = x + 1\n\treturn x\n',
 	'def {n}({h}) -> int:\n\tn = 0\n\twhile n < 3:\n\t\tb = n {0} a\n\t\tn += 1\n\tif a {1} 0:\n\t\ta = 0\n\treturn a * 10 + b\n',
 	'def {n}({h}) -> int:\n\tif a {1} d:\n\t\tb = a {0} d\n\tfor i in range(2):\n\t\td = i\n\treturn a + b + d\n',
+	# unary sign / inversion of a bool stored in an inferred local
+	'def {n}({h}) -> int:\n\tt = -c\n\tu = ~(a {1} b)\n\treturn (t {0} a) + u\n',
 	# raise guarded by a condition
 	'def {n}({h}) -> int:\n\tif a {1} b:\n\t\traise Exception()\n\treturn a {0} d\n',
 	'def {n}({h}) -> int:\n\tx = a {0} b\n\tif not x {1} d or c:\n\t\traise Exception()\n\treturn x\n',
